@@ -1293,3 +1293,20 @@ def r518(rep: Report, ctx: Ctx) -> None:
     rep.rule("R5.18", "diagram nodes: creation, registration, the activity "
              "line, loop body framing, dummy start / end removal", 15)
     check_table(rep, ctx, "R5.18", PUML_TABLE, list(PUML_TABLE))
+    # the linearisation starts at the FIRST node in topological order (for
+    # ties: the node created first).  After the dummy end is removed a body
+    # can have a second source (a trailing kill node); starting there emits
+    # `detach` + the closing keyword and loses every event of the body
+    from .effspec import effects
+    fi = ctx.func("PUMLGraph.write_uml_blocks")
+    calls = [e for e in effects(ctx, fi, names={
+        "_order_nodes_from_dfs_successors_dict"}) if e.kind == "call"
+        and e.name == "_order_nodes_from_dfs_successors_dict"]
+    head = "list(topological_sort(P:self))[0]"
+    ok = len(calls) == 1 and calls[0].args == (
+        head, f"dfs_successors(P:self,{head})")
+    rep.ob("R5.18", "the diagram is linearised from the first node in "
+           "topological order", ok, fi=fi,
+           node=calls[0].node if calls else fi.node,
+           detail="; ".join(", ".join(c.args)[:200] for c in calls)
+           or "<no ordering call>")
